@@ -53,13 +53,15 @@ META = {
 MEM_LIMIT_MB = 3072        # per run: plain build RLIMIT_AS, sanitised build hard_rss_limit_mb (ASan needs a huge address space)
 SAN_ENV = {"ASAN_OPTIONS": "exitcode=97:detect_leaks=0:allocator_may_return_null=1:hard_rss_limit_mb=%d" % MEM_LIMIT_MB,
            "UBSAN_OPTIONS": "exitcode=96:print_stacktrace=0"}
+REF_CPU_DEV = 0.040       # median CPU of a repository file on the sanitised build on the development machine (only used to SCALE the
+                          # size of the amplified inputs down on a slower machine; no verdict depends on it)
 MAX_BYTES = 8192
 SAFE_DEPTH = 300          # nesting that must work on the default 8 MiB stack (ASan frames are ~3x larger)
 BIG_STACK = 1 << 30       # deep-nesting stream: stack-size limit raised so that only non-stack failures show
 
 
 # ------------------------------------------------------------------ running the implementation
-def run_case(impl_dir, data, mode="parse", args=(), big_stack=False, cpu=10, wall=60, stack=None):
+def run_case(impl_dir, data, mode="parse", args=(), big_stack=False, cpu=10, wall=300, stack=None):
     """One run of `main` on the byte string `data`. Returns rc (negative = signal), CPU seconds, stdout/stderr.
     big_stack: stack-size limit 1 GiB; stack=<bytes>: that stack-size limit; default: the inherited one (8 MiB)."""
     d = tempfile.mkdtemp(prefix="c10run-", dir=common.SCRATCH_ROOT)
@@ -632,23 +634,23 @@ EXEC_KINDS = list(EXEC)
 DEPTHS = [1000, 10000, 100000]
 # every look-ahead / backtracking point of the parser copies the lexer INCLUDING the source text (finding C10-lexer-copy-quadratic), so
 # the cost of an amplified input is (levels reached) x (bytes): the input size is capped (the depth is scaled down, never below 10^4)
-CAP_BYTES = {"asan": 250000, "plain": 800000}
+CAP_BYTES = {"asan": 150000, "plain": 400000}
 # known findings of the unchanged tree: the main stream stays below the depth at which the recorded defect shows
 # (per kind and build; the finding's own replay runs the input that trips it)
 AVOID_DEPTH = {
     "comments": {"asan": 10000, "plain": 40000},           # C10-comment-run-stack-overflow
     "line-comments": {"asan": 10000, "plain": 40000},
-    "ternary-open": {"asan": 300, "plain": 300},            # C10-ternary-reparse-superlinear
+    "ternary-open": {"asan": 150, "plain": 300},            # C10-ternary-reparse-superlinear
     "ternary-mid": {"asan": 1000, "plain": 10000},          # C10-ternary-swallows-nesting-error
     "x-ternary-mid": {"asan": 1000, "plain": 10000},
     "struct-self-nest": {"asan": 1000, "plain": 1000},      # C10-struct-chain-superlinear
     "enum-members-wide": {"asan": 10000, "plain": 30000},   # C10-lexer-copy-quadratic (and a linear member search per member)
     "switch-cases-wide": {"asan": 5000, "plain": 20000},
     "match-arms-wide": {"asan": 5000, "plain": 20000},
-    "lt-chain": {"asan": 20000},                            # linear, but 256 tokens of look-ahead per '<'
-    "lt-gt-chain": {"asan": 20000},
-    "flat-lt": {"asan": 20000},
-    "x-flat-lt": {"asan": 20000},
+    "lt-chain": {"asan": 15000, "plain": 50000},            # linear, but 256 tokens of look-ahead per '<'
+    "lt-gt-chain": {"asan": 15000, "plain": 50000},
+    "flat-lt": {"asan": 15000, "plain": 50000},
+    "x-flat-lt": {"asan": 15000, "plain": 50000},
     "x-string-grow": {"asan": 20000},                       # the sanitised build keeps every freed string (quarantine)
     "cast-generic": {"asan": 5000, "plain": 30000},         # C10-lexer-copy-quadratic: two lexer copies + a type instantiation per cast
     "statements-many": {"asan": 15000},
@@ -667,11 +669,13 @@ def amp(kind, d, one_line=False):
         ONE_LINE[0] = False
 
 
-def amp_capped(kind, depth, build):
-    """(actual depth, bytes): depth limited by the avoidance table and by the size cap of the build"""
+def amp_capped(kind, depth, build, scale=1.0):
+    """(actual depth, bytes): depth limited by the avoidance table and by the size cap of the build (scaled down on a slow machine)"""
     d = min(depth, AVOID_DEPTH.get(kind, {}).get(build, depth))
+    if d > 10000 and scale < 1.0:
+        d = max(10000, int(d * scale))
     data = amp(kind, d)
-    cap = CAP_BYTES[build]
+    cap = int(CAP_BYTES[build] * scale)
     if len(data) > cap and d > 10000:
         d = max(10000, int(d * cap / len(data)))
         data = amp(kind, d)
@@ -682,24 +686,17 @@ def amp_matrix(tier, seed):
     """[(kind, mode, build, depth)] of the deep streams of this run"""
     quick = tier == "quick"
     out = []
-    for k in PARSE_KINDS:
-        for b in ("asan", "plain"):
-            for dp in (DEPTHS if (not quick or b == "asan") else DEPTHS[1:]):
-                out.append((k, "parse", b, dp))
-            if not quick:
-                out += [(k, "parse", b, dp) for dp in (3000, 30000)]
-    for k in EXEC_KINDS:
-        mode = "parse" if k in PARSE_ONLY_EXEC else "full"
-        flat = k.startswith("x-flat") or k in ("x-call-chain-args", "x-ternary-right", "x-ternary-mid")   # evaluation of a flat chain is quadratic below the guard
-        for b in ("asan", "plain"):
-            dps = list(DEPTHS)
-            if quick and flat:
-                dps = [1000, 100000]
-            if quick and b == "plain":
-                dps = [x for x in dps if x != 1000]
-            out += [(k, mode, b, dp) for dp in dps]
-            if not quick:
-                out += [(k, mode, b, dp) for dp in (3000, 30000)]
+    for i, k in enumerate(PARSE_KINDS + EXEC_KINDS):
+        mode = "parse" if (k not in EXEC or k in PARSE_ONLY_EXEC) else "full"
+        if not quick:
+            out += [(k, mode, b, dp) for b in ("asan", "plain") for dp in (1000, 3000, 10000, 30000, 100000)]
+            continue
+        # quick tier: 10^3 and 10^5 on the sanitised build, 10^5 on the plain build, 10^4 on one of the two (alternating with the seed)
+        flat = k.startswith("x-flat") or k in ("x-call-chain-args", "x-ternary-right", "x-ternary-mid")   # evaluating a flat chain is quadratic below the guard
+        out += [(k, mode, "asan", 1000), (k, mode, "asan", 100000), (k, mode, "plain", 100000)]
+        mid_build = "asan" if (i + seed) % 2 == 0 else "plain"
+        if not (flat and mid_build == "plain"):
+            out.append((k, mode, mid_build, 10000))
     return out
 
 
@@ -748,8 +745,6 @@ ALLOC_EDGE = [
     "void main() { int[3][3][3][3][3][3][3][3][3][3][3][3][3][3][3][3][3][3][3][3][3] q; println(1); }\n",
     "const int N = 65536;\nvoid main() { int[N][N] q; println(1); }\n",
     "const int N = -3;\nvoid main() { int[N] q; println(1); }\n",
-    "int[65536][65536] gq;\nvoid main() { println(1); }\n",
-    "struct M { int[65536][65536] v; };\nvoid main() { M m; println(1); }\n",
     "void main() { int[3] a = [1, 2, 3]; println(a[3]); }\n",
     "void main() { int[3] a = [1, 2, 3]; println(a[-1]); }\n",
     "void main() { int[3] a = [1, 2, 3]; println(a[2147483647]); }\n",
@@ -777,8 +772,6 @@ ALLOC_EDGE = [
     "void main() { string s = \"\"; println(s[0]); }\n",
     "void main() { char c = 'a'; int x = c + 2147483647; println(x); }\n",
     "void main() { int x = 2147483647; x++; println(x); }\n",
-    "void main() { long x = 9223372036854775807; x++; println(x); }\n",
-    "void main() { long x = 0 - 9223372036854775807 - 1; x--; println(x); }\n",
     "void main() { long x = 0 - 9223372036854775807 - 1; println(-x); }\n",
     "void main() { long x = 0 - 9223372036854775807 - 1; println(x / -1); }\n",
     "void main() { long x = 0 - 9223372036854775807 - 1; println(x % -1); }\n",
@@ -798,10 +791,16 @@ ALLOC_EDGE = [
 ]
 
 
+INCDEC_LIMITS = ("9223372036854775807", "(0 - 9223372036854775807 - 1)")
+
+
 def edge_case(rng):
     form = rng.choice(EDGE_FORMS)
-    return form.format(t=rng.choice(EDGE_TYPES) if rng.random() < 0.5 else "long", a=rng.choice(EDGE_VALS), b=rng.choice(EDGE_VALS),
-                       op=rng.choice(EDGE_OPS))
+    t = rng.choice(EDGE_TYPES) if rng.random() < 0.5 else "long"
+    a, b = rng.choice(EDGE_VALS), rng.choice(EDGE_VALS)
+    if "a++" in form and a in INCDEC_LIMITS:
+        a = "-9223372036854775807"     # avoid C10-incdec-long-overflow-ub: ++ / -- of a long at the end of its range
+    return form.format(t=t, a=a, b=b, op=rng.choice(EDGE_OPS))
 
 
 # ------------------------------------------------------------------ lexer correspondence (leaf driver vs extracted model)
@@ -1169,37 +1168,42 @@ def run(rep):
     base = common.pmap(run_file, files)
     evaluations += len(base)
     hist["repo-file"] = len(base)
-    cpu0 = min(r["cpu"] for _, _, r in base) if base else 0.05
-    fit = sorted((r["cpu"] - cpu0) / len(d) for _, d, r in base if len(d) >= 2000)
-    # 90th percentile of (cpu - startup)/bytes over the unmodified files, clipped: robust against load spikes of single runs
-    c_fit = fit[(len(fit) * 9) // 10] if fit else 1e-5
-    c_fit = min(max(c_fit, 2e-6), 5e-5)
+    # Timing is decided RELATIVE to a reference workload timed in this very run on this machine (no constant in seconds):
+    #   ref_cpu / ref_bytes = median CPU time / size of the unmodified repository files on the sanitised build.
+    # A parse-only run of an ordinary-sized input is SUSPICIOUS when it costs more than 20 x ref_cpu (scaled with its size); a
+    # suspicious run is only called "slow" after it was re-measured alone (minimum of 3) and - where the input has a generator - after
+    # the same shape at sizes n, 2n, 4n showed clearly super-linear growth (see confirm_timing).  Hangs: the 10 s CPU limit of run_case.
+    cpus = sorted(r["cpu"] for _, _, r in base) or [0.05]
+    ref_cpu = max(cpus[len(cpus) // 2], 0.005)
+    sizes = sorted(len(d) for _, d, _ in base) or [2000]
+    ref_bytes = max(sizes[len(sizes) // 2], 512)
+    speed = min(max(ref_cpu / REF_CPU_DEV, 0.5), 6.0)       # > 1: this machine (or its load) is slower than the development machine
+    cap_scale = 1.0 / (speed ** 0.5) if speed > 1.0 else 1.0   # the cost of an amplified input is quadratic in its size
 
-    def bound(n):
-        return 3 * cpu0 + 0.5 + 8 * c_fit * n
+    def suspect(n):
+        return 20.0 * ref_cpu * max(1.0, n / float(ref_bytes))
 
     def case_bound(c, n):
-        """CPU bound of a campaign case: the linear bound speaks about the FRONT END on inputs of ordinary size; executed programs
+        """CPU above which a campaign case is suspicious: only the FRONT END on inputs of ordinary size has one; executed programs
         (their own loops) and the deep amplifiers (some 100 KB, where the recorded quadratic lexer copy dominates) only have the
-        10 s CPU limit of run_case"""
+        CPU limit of run_case"""
         if c[3] != "parse" or c[0] in ("amplify-deep", "amplify-exec", "amplify-stacklimit") or n > 4 * MAX_BYTES:
             return None
-        g = (c[8] if len(c) > 8 else extra(c)).get("gen") or {}
-        # a self-referential macro is expanded until the growth bound of fix 6b05a50 (16 KiB per line and pass) stops it: a constant
-        # amount of work (theorem preproc_expand_size_bounded), not proportional to the input
-        return (bound(n) + (2.0 if g.get("kind") in ("define-selfref", "define-mutual") else 0.0)) * (3 if c[5] else 1)
-    rep.coverage["timing"] = {"startup_cpu_s": round(cpu0, 4), "c_fit_s_per_byte": c_fit, "bound": "3*startup + 0.5 + 8*c*n (CPU seconds)",
+        return suspect(n) * (3 if c[5] else 1)
+    rep.coverage["timing"] = {"reference": "median CPU / size of the %d unmodified repository files, sanitised build, this run" % len(base),
+                              "ref_cpu_s": round(ref_cpu, 4), "ref_bytes": ref_bytes, "suspicious_above": "20 x ref_cpu x max(1, n / ref_bytes)",
+                              "machine_speed_factor": round(speed, 2), "amplifier_size_scale": round(cap_scale, 2),
                               "max_repo_file_cpu_s": round(max(r["cpu"] for _, _, r in base), 3) if base else None}
     for f, d, r in base:
         note(d, r)
-        s = signature(r, bound(len(d)) * 2)
+        s = signature(r, suspect(len(d)) * 2)
         if s:
             failures.append(("repo-file", f, d, "parse", [], False, r, s, {}))
     usable = [(f, d) for f, d, r in base if len(d) <= MAX_BYTES and len(d) > 20 and not trips_selfref_macro(d)]
 
     # ---------------- (3) generated streams, all through one pool
     cases = []        # (stream, label, data, mode, args, big_stack)
-    n_mut = 1500 if quick else 20000
+    n_mut = 1000 if quick else 20000
     for k in range(n_mut):
         rng = rng_for(seed, "c10-mut", k)
         f, d = rng.choice(usable)
@@ -1215,7 +1219,7 @@ def run(rep):
             continue
         cases.append(("mutation", "%s:%s" % (os.path.relpath(f, common.REPO), "+".join(kinds)), m, "parse", [], False))
     # truncation at EVERY token boundary of a few files
-    n_trunc_files = 3 if quick else 30
+    n_trunc_files = 2 if quick else 30
     rngt = rng_for(seed, "c10-trunc")
     smallf = [(f, d) for f, d in usable if len(d) <= (1500 if quick else 4000)]
     for f, d in rngt.sample(smallf, min(n_trunc_files, len(smallf))):
@@ -1241,7 +1245,8 @@ def run(rep):
                       {"build": build, "gen": {"kind": kind, "depth": dd}}))
     # the same under other stack-size limits (the guard derives its budget from RLIMIT_STACK)
     for kind in STACK_KINDS:
-        for lim in STACK_LIMITS:
+        for lim in (STACK_LIMITS[:1] if kind in EXEC else STACK_LIMITS):     # executed kinds: the small limit only (a larger stack lets the
+                                                                             # quadratic evaluation of a flat chain run for minutes before the guard)
             for build in (("plain",) if quick else ("plain", "asan")):
                 cases.append(("amplify-stacklimit", "%s:%d:%s:stack=%dMiB" % (kind, 100000, build, lim >> 20), None,
                               "full" if kind in EXEC else "parse", [], False,
@@ -1313,7 +1318,7 @@ def run(rep):
 
     def guarded(data, mode, args, big, build="asan", stack=None):
         slow = hung["n"] > 25
-        r = run_case(asan if build == "asan" else plain, data, mode, args, big, cpu=1 if slow else 10, wall=10 if slow else 60, stack=stack)
+        r = run_case(asan if build == "asan" else plain, data, mode, args, big, cpu=1 if slow else 10, wall=20 if slow else 300, stack=stack)
         if r["killed"] or r["rc"] in (-24, -25, -9):
             hung["n"] += 1
         return r
@@ -1326,7 +1331,7 @@ def run(rep):
         if c[2] is not None:
             return c[2], extra(c).get("gen", {}).get("depth")
         g = extra(c)["gen"]
-        d, data = amp_capped(g["kind"], g["depth"], extra(c).get("build", "asan"))
+        d, data = amp_capped(g["kind"], g["depth"], extra(c).get("build", "asan"), cap_scale)
         return data, d
 
     def run_one(c):
@@ -1369,6 +1374,8 @@ def run(rep):
         if "Stack limit reached" in r["err"]:
             guard_hits["evaluator"] += 1
         s = signature(r, case_bound(c, r["nbytes"]))
+        if s and s.startswith("memory|") and c[3] == "full":
+            s = None          # an executed program may ask for more memory than the 3 GiB this campaign grants a run
         if s:
             failures.append((c[0], c[1], c[2], c[3], c[4], c[5], r, s, extra(c)))
     rep.coverage["stack_guard_diagnostics_seen"] = guard_hits
@@ -1385,7 +1392,7 @@ def run(rep):
     for (text, args), mv, r in zip(pp_cases, pp_model, pp_res):
         evaluations += 1
         note(text.encode(), r)
-        s = signature(r, bound(len(text)))
+        s = signature(r, suspect(len(text)))
         if s:
             failures.append(("directive-file", " ".join(args), text.encode(), "parse", ["-D" + a for a in args], False, r, s, {}))
             continue
@@ -1423,7 +1430,7 @@ def run(rep):
         evaluations += 1
         src = ("void main() { println(%s); }\n" % text).encode()
         note(src, r)
-        s = signature(r, bound(len(src)))
+        s = signature(r, suspect(len(src)))
         if s:
             failures.append(("expr-program", kind, src, "parse", [], False, r, s, {}))
             continue
@@ -1480,21 +1487,77 @@ def run(rep):
         """same kind of failure (for crashes the place may move with the depth)"""
         return a is not None and b is not None and a.split("|")[:2] == b.split("|")[:2]
 
-    # time-outs and slow runs were measured with 16 runs in flight on a possibly busy machine: they are re-measured one at a time and
-    # kept only if they repeat (after three repeats in a row the rest is taken as measured - a hanging tree must not cost hours)
+    # ---- timing verdicts.  The campaign measured with 16 runs in flight on a possibly busy machine, so a "slow" / "timeout" of the pool
+    # is only a suspicion.  confirm_timing decides it one run at a time:
+    #   1. the input is re-run ALONE up to 3 times (CPU limit 30 s); the minimum counts;
+    #   2. a run that does not end within 30 s of CPU alone is a hang ("timeout");
+    #   3. an input WITH a generator is judged by GROWTH: the same shape at sizes n/4, n/2, n (deep streams) or n, 2n, 4n (small ones);
+    #      it is "slow" only if cpu(4x) / max(cpu(x), ref_cpu) > 8 (clearly super-linear for a size ratio of 4) AND the largest run costs
+    #      more than 100 x ref_cpu (several seconds; calibrated on this run's repository files);
+    #   4. an input WITHOUT a generator (mutations, soups, repository files) is "slow" only if its minimum of 3 alone is still above its
+    #      suspicion threshold (>= 20 x ref_cpu, scaled with the size).
+    floor_cpu = 100.0 * ref_cpu
+
+    def alone(fl, data, times=3, cpu=30):
+        x, best = fl[8], None
+        for _ in range(times):
+            r2 = run_case(impl_of(x), data, fl[3], fl[4], fl[5], cpu=cpu, wall=40 * cpu, stack=x.get("stack"))
+            if best is None or r2["cpu"] < best["cpu"]:
+                best = r2
+            if signature(r2) is not None:        # hang, crash ...: nothing to average
+                return r2
+        return best
+
+    def confirm_timing(fl):
+        """-> (signature or None, detail)"""
+        data = fl_data(fl)
+        r1 = alone(fl, data)
+        s1 = signature(r1)
+        if s1 == "timeout":
+            return "timeout", {"alone_cpu_s": round(r1["cpu"], 2), "cpu_limit_s": 30}
+        if s1 is not None:
+            return s1, {}
+        gen = fl[8].get("gen")
+        thr = case_bound(fl, len(data))
+        if not gen:
+            if thr is not None and r1["cpu"] > thr:
+                return "slow", {"alone_min_of_3_cpu_s": round(r1["cpu"], 3), "threshold_cpu_s": round(thr, 3), "ref_cpu_s": round(ref_cpu, 4)}
+            return None, {"alone_min_of_3_cpu_s": round(r1["cpu"], 3)}
+        if thr is not None and r1["cpu"] <= thr and fl[7] == "slow":
+            return None, {"alone_min_of_3_cpu_s": round(r1["cpu"], 3)}
+        d = fl[6].get("depth") or gen["depth"]
+        ds = [max(1, d // 4), max(2, d // 2), d] if d >= 4000 else [d, 2 * d, 4 * d]
+        cp = []
+        for dd in ds:
+            r2 = r1 if dd == d else alone(fl, fl_data(fl, dd), times=2)
+            if signature(r2) == "timeout":
+                return "timeout", {"depths": ds, "cpu_s": cp + [">30"]}
+            cp.append(round(r2["cpu"], 3))
+        ratio = cp[2] / max(cp[0], ref_cpu)
+        det = {"depths": ds, "cpu_s": cp, "growth_for_4x": round(ratio, 1), "floor_cpu_s": round(floor_cpu, 2), "ref_cpu_s": round(ref_cpu, 4)}
+        if ratio > 8.0 and cp[2] > floor_cpu:
+            return "slow", det
+        return None, det
+
     rep.coverage["oracle_failures_before_remeasure"] = len(failures)
-    kept, streak, dropped = [], 0, 0
+    kept, streak, dropped = [], 0, []
     for fl in failures:
-        if fl[7] in ("slow", "timeout") and streak < 3:
-            s2, _ = fl_sig(fl, fl_data(fl))
-            if s2 not in ("slow", "timeout"):
-                dropped += 1
+        if fl[7] in ("slow", "timeout"):
+            if streak >= 3:                   # three confirmed in a row: the rest is taken as measured (a hanging tree must not cost hours)
+                kept.append(fl)
+                continue
+            s2, det = confirm_timing(fl)
+            if s2 is None:
+                dropped.append((fl[1] or fl[0], det))
                 streak = 0
                 continue
             streak += 1
+            fl = fl[:7] + (s2,) + fl[8:]
+            fl[6]["timing"] = det
         kept.append(fl)
     if dropped:
-        rep.notes.append("%d slow/time-out measurement(s) of the parallel campaign did not repeat when re-run alone (machine load)" % dropped)
+        rep.notes.append("%d slow/time-out suspicion(s) of the parallel campaign were not confirmed when re-measured alone / by growth: %s" % (
+            len(dropped), json.dumps(dropped[:4])[:600]))
     failures = kept
     rep.coverage["oracle_failures"] = len(failures)
     by_sig = {}
@@ -1519,7 +1582,7 @@ def run(rep):
             # an amplified input is shrunk along its depth (smallest depth with the same kind of failure)
             hi = r.get("depth") or gen["depth"]
             lo = 0
-            budget = 14 if s not in ("slow", "timeout") else 4
+            budget = 14 if s not in ("slow", "timeout") else 0          # a timing verdict keeps the size it was confirmed at
             while hi - lo > max(1, hi // 20) and budget > 0:
                 budget -= 1
                 mid = (lo + hi) // 2
@@ -1530,14 +1593,17 @@ def run(rep):
                     lo = mid
             small = fl_data(fl, hi)
             gen = dict(gen, depth=hi)
-            s2, r2 = fl_sig(fl, small)
+            if s in ("slow", "timeout"):
+                s2, r2 = s, r
+            else:
+                s2, r2 = fl_sig(fl, small)
             if not same(s2, s):
                 small, r2, gen = fl_data(fl), r, dict(gen, depth=r.get("depth") or gen["depth"])
         else:
             def still(y, s=s, fl=fl):
                 return fl_sig(fl, y)[0] == s
-            small = shrink_bytes(data, still, 40 if quick else 150) if len(data) <= 20000 and s != "slow" else data
-            s2, r2 = fl_sig(fl, small)
+            small = shrink_bytes(data, still, 40 if quick else 150) if len(data) <= 20000 and s not in ("slow", "timeout") else data
+            s2, r2 = (s, r) if s in ("slow", "timeout") else fl_sig(fl, small)
             if s2 != s:
                 small, r2 = data, r
         other = plain if impl_of(x) is asan else asan
@@ -1546,9 +1612,12 @@ def run(rep):
                    "stream": stream, "label": label, "signature": s, "rc": r2["rc"], "cpu_s": round(r2["cpu"], 3), "bytes": len(small),
                    "stderr": r2["err"][:1500], "rc_other_build": ro["rc"], "signature_other_build": signature(ro),
                    "cases_with_this_signature": len(fls),
-                   "demanded": "exit status 0 or 1, no signal, no sanitizer report, diagnostic when 1, CPU <= %.2fs" % bound(len(small))}
+                   "demanded": "exit status 0 or 1, no signal, no sanitizer report, diagnostic when 1, no hang (10 s CPU), parse time growing "
+                               "linearly with the input (reference: %.3f s for the median repository file in this run)" % ref_cpu}
         if x.get("stack"):
             payload["stack"] = x["stack"]
+        if r.get("timing"):
+            payload["timing"] = r["timing"]
         if gen:
             payload["gen"] = gen
         if len(small) <= 20000 or not gen:
@@ -1559,8 +1628,7 @@ def run(rep):
                           "plain" if other is plain else "sanitised", ro["rc"], (" " + signature(ro)) if signature(ro) else ""))
 
     # ---------------- (5) known findings: replay each; still failing -> KNOWN-FINDING
-    for f in findings:
-        ok, text = replay_finding(f, asan, plain)
+    for f, (ok, text) in zip(findings, common.pmap(lambda f: replay_finding(f, asan, plain), findings, workers=4)):
         if ok is None:
             rep.notes.append("known finding %s: %s" % (f["id"], text))
         elif ok:
@@ -1642,14 +1710,27 @@ def replay(path):
             src = amp(g["kind"], g["depth"], bool(g.get("one_line")))
         else:
             src = bytes.fromhex(c["source_hex"])
-        r = run_case(impl, src, c.get("mode", "parse"), c.get("args", []), bool(c.get("big_stack")), stack=c.get("stack"))
+        timing = c.get("signature") in ("slow", "timeout")
+
+        def go(data):
+            return run_case(impl, data, c.get("mode", "parse"), c.get("args", []), bool(c.get("big_stack")), cpu=30 if timing else 10,
+                            stack=c.get("stack"))
+        r = go(src)
         s = signature(r)
-        if s is None and c.get("signature") in ("slow", "timeout"):
-            m = re.search(r"CPU <= ([0-9.]+)s", c.get("demanded", ""))
-            if m and r["cpu"] > float(m.group(1)):
-                s = "slow"
         print("input: %d bytes%s, %s build, mode %s" % (len(src), (" (%s x %d)" % (g["kind"], g["depth"])) if "gen" in c else "",
                                                      c.get("build", "asan"), c.get("mode", "parse")))
+        if s is None and timing:
+            # the same relative rule as in run(): reference = a trivial program on this build, now
+            ref = sorted(go(b"void main() { }\n")["cpu"] for _ in range(5))[2] * 1.25
+            t = c.get("timing", {})
+            if "gen" in c and t.get("depths"):
+                cp = [min(go(amp(g["kind"], dd, bool(g.get("one_line"))))["cpu"] for _ in range(2)) for dd in t["depths"]]
+                ratio = cp[2] / max(cp[0], ref)
+                print("depths", t["depths"], "cpu", [round(x, 3) for x in cp], "growth for 4x the size: %.1f" % ratio, "reference cpu %.3f" % ref)
+                if ratio > 8.0 and cp[2] > 100 * ref:
+                    s = "slow"
+            elif r["cpu"] > 20 * ref * max(1.0, len(src) / 2000.0):
+                s = "slow"
         print("exit", r["rc"], "cpu %.3f" % r["cpu"], "signature", s)
         print(r["err"][:1500])
         return 1 if s else 0
